@@ -107,6 +107,9 @@ CAUSE_DOC = collections.OrderedDict([
     ("quote-then-caret-caret-in-lexical-form",
      "lexical form that begins with '^^' (the OPENING quote is then followed by ^^) or contains an escaped quote followed by ^^: "
      "utils/uri.decide_literal_type takes that '\"^^' for the datatype marker"),
+    ("caret-caret-in-lang-literal",
+     "LANGUAGE-TAGGED literal with '^^' in its text: the reader must look for the language tag first (it does on the recorded "
+     "tree, where only plain and typed literals with '^^' fail)"),
     ("caret-caret-in-plain-literal", "plain or language-tagged literal with '^^' somewhere in its lexical form (typed branch of the tokenizer)"),
     ("language-tag-not-detected", "language-tagged literal reported as xsd:string"),
     ("prefix-like-substring-in-lexical-form",
@@ -129,6 +132,9 @@ CAUSE_DOC = collections.OrderedDict([
     ("relative-datatype-under-base",
      "literal whose datatype is a relative IRI (\"20\"^^<celsius>): it resolves against the @base in force, also when the same "
      "literal text was read under another base earlier in the document or in an earlier document of the same process"),
+    ("colon-in-local-name",
+     "prefixed name whose local part contains ':' (ex:item:42, voc:part:of): the namespace replaces the label only, the local part "
+     "stays whole, so ex:item:42 / ex:item:43 / ex:item are three nodes"),
     ("tab-before-comment",
      "trailing comment whose '#' follows a TAB (or TAB+blank / several blanks) on a line that is followed by more of the "
      "document: it must be stripped like a comment after one blank (the same document with ' # note' reads correctly)"),
@@ -245,6 +251,8 @@ def gen_cases(pid, tier, seed):
         for case in R.ttl_tab_comment_cases():
             units.append(("ttl", case))
         for case in R.ttl_redeclaration_cases():
+            units.append(("ttlx", case))
+        for case in R.ttl_colon_local_cases():
             units.append(("ttlx", case))
         for case in R.ttl_sequence_cases():
             units.append(("ttlseq", case))
@@ -798,6 +806,40 @@ def _mutants():
             return result.strip()
         return patch(ttl.BigTtlTriplesYielder, "_clean_line", bad)
 
+    def typed_branch_tested_before_language_tag():
+        uri = sys.modules["shexer.utils.uri"]
+
+        def bad(self, target_str, first_index):
+            target_substring = target_str[first_index:]
+            if "^^" in target_substring:                                        # typed: now tested FIRST
+                return self._look_for_last_index_of_unspaced_token(target_str, first_index + target_substring.find("^^"))
+            elif uri.there_is_arroba_after_last_quotes(target_substring):       # language tag
+                return self._look_for_last_index_of_unspaced_token(target_str, target_str.rfind("@"))
+            success = False
+            index_of_quotes = 1
+            while not success:
+                if '"' not in target_substring[index_of_quotes + 1:]:
+                    return len(target_str) - 1
+                index_of_second_quotes = target_substring[index_of_quotes + 1:].find('"') + index_of_quotes + 1
+                if target_substring[index_of_second_quotes - 1] != "\\":
+                    success = True
+                elif target_substring[index_of_second_quotes - 2] == "\\":
+                    success = True
+                index_of_quotes = index_of_second_quotes
+            return index_of_quotes + (len(target_str) - len(target_substring))
+        return patch(nt.NtTriplesYielder, "_look_for_last_index_of_literal_token", bad)
+
+    def local_part_cut_at_second_colon():
+        uri = sys.modules["shexer.utils.uri"]
+
+        def bad(target_uri, prefix_namespaces_dict, include_corners=True):
+            for a_prefix in prefix_namespaces_dict:
+                if target_uri.startswith(a_prefix + ":"):
+                    result = prefix_namespaces_dict[a_prefix] + target_uri.split(":")[1]
+                    return uri.add_corners(result) if include_corners else result
+            raise ValueError("Unrecognized prefix in the following element" + target_uri)
+        return patch(ttl, "unprefixize_uri_mandatory", bad)
+
     def state_machine_keeps_waiting_for_object():
         old = ttl.BigTtlTriplesYielder._assing_tmp_element_and_promote_state
 
@@ -832,6 +874,8 @@ def _mutants():
         ("C06", "RawStringLineReader.read_lines uses str.splitlines()", lines_by_splitlines, "", "C06:unicode-line-separator-in-literal:"),
         ("C06", "multi-file: yielded_triples of the finished file added to the error total", errors_of_a_finished_file_swapped, "",
          "C06:multi-file:error-count"),
+        ("C06", "_look_for_last_index_of_literal_token tests the typed branch before the language tag", typed_branch_tested_before_language_tag, "",
+         "C06:caret-caret-in-lang-literal:"),
         ("C06", "_yielder_for_nt: the list-of-files branch drops compression_mode", list_of_files_loses_compression_mode, "",
          "C06:multi-file:compressed:"),
         ("C06", "_look_for_last_index_of_bnode_token matches _:[\\w\\-]+", bnode_label_by_regex, "", "C06:bnode-label-with-dot:"),
@@ -839,6 +883,8 @@ def _mutants():
          "C07:relative-datatype-under-base:"),
         ("C07", "_clean_line strips comments before tabs / multiple blanks are normalised", comments_stripped_before_blank_normalisation, "",
          "C07:tab-before-comment:"),
+        ("C07", "unprefixize_uri_mandatory cuts the local part at the second colon", local_part_cut_at_second_colon, "",
+         "C07:colon-in-local-name:"),
         ("C07", "_parse_elem memoised by raw token across @prefix / @base lines", prefix_expansion_memo, "", "C07:prefix-redeclared:"),
         ("C07", "_assing_tmp_element_and_promote_state: predicate after ';' taken for the object", state_machine_keeps_waiting_for_object),
         ("C07", "',' handled like ';' in the statement state machine", comma_resets_to_predicate),
